@@ -125,8 +125,48 @@ func c18Body(c *explore.C, tier universe.Tier) {
 		c.Fail(fmt.Sprintf("alternating size/encode calls on two used types allocate %.1f objects per round [%s]", a, how), &harness.Case{Property: "C18", Class: "alternation-allocates", Type: s.String(), Value: v.Short(), GoType: universe.GoSource(s)})
 		return
 	}
+	if ti == 0 && vi == 0 {
+		// once per first-use order: the recursive type with the same container types populated at several levels
+		if msg := c18Recursive(); msg != "" {
+			c.Fail(msg, &harness.Case{Property: "C18", Class: "recursive-allocates", Type: "universe.R (recursive)"})
+			return
+		}
+	}
 	harness.Cur.Outcome(harness.Hash64([]byte(s.String()), []byte{byte(vi), byte(order)}), s.Fields[0].Type.Kind.String())
 	harness.Cur.Sample(func() interface{} {
 		return map[string]interface{}{"type": s.String(), "value": v.Short(), "order": order}
 	})
+}
+
+// c18Recursive: values of the recursive type in which one map / list type is populated at several levels.
+func c18Recursive() string {
+	var mk func(d int) *universe.R
+	mk = func(d int) *universe.R {
+		r := &universe.R{X: int32(d)}
+		if d == 0 {
+			return r
+		}
+		r.S = mk(d - 1)
+		r.L = []*universe.R{mk(d - 1), mk(0)}
+		r.T = []*universe.R{mk(d - 1)}
+		r.MV = map[int32]*universe.R{1: mk(d - 1), 2: mk(0)}
+		r.MK = map[*universe.R]int32{mk(d - 1): 1}
+		r.LL = [][]*universe.R{{mk(d - 1)}, {}}
+		return r
+	}
+	for _, d := range []int{1, 2, 3} {
+		v := mk(d)
+		n := frugal.EncodedSize(v)
+		buf := make([]byte, n+8)
+		if _, err := frugal.EncodeObject(buf, nil, v); err != nil {
+			return "encode of the recursive type failed: " + err.Error()
+		}
+		if a := testing.AllocsPerRun(20, func() { frugal.EncodedSize(v) }); a != 0 {
+			return fmt.Sprintf("EncodedSize of the recursive type nested %d levels allocates %.1f objects per call", d, a)
+		}
+		if a := testing.AllocsPerRun(20, func() { frugal.EncodeObject(buf, nil, v) }); a != 0 {
+			return fmt.Sprintf("EncodeObject of the recursive type nested %d levels allocates %.1f objects per call", d, a)
+		}
+	}
+	return ""
 }
